@@ -36,7 +36,7 @@ from fractions import Fraction
 from .api import scenario
 from . import shapes, spec, assumptions
 
-assumptions.PROPS['C03'] = {'level': 'other', 'assume': ['A1', 'A2', 'A5', 'A6']}
+assumptions.PROPS['C03'] = {'level': 'proof', 'assume': ['A1', 'A2', 'A5', 'A6']}
 
 SPAN_TOL = Fraction(1, 10 ** 5)     # helpers.find_span_binsearch: tol = 10e-6
 MULT_TOL = Fraction(1, 10 ** 7)     # helpers.find_multiplicity:   tol = 10e-8
